@@ -610,6 +610,37 @@ def w5_bundled_state(ctx: Ctx):
         raise ShapeError(f'only {n} bundling methods with packed state found')
 
 
+def w8_sizes_are_integers(ctx: Ctx):
+    """A tensor length is an integer whatever block it is asked in, but an FPCore reader rounds every unannotated
+    expression under the enclosing annotation: `(size t 0)` under an 8-digit format turns 257 into 256 and the compiled
+    loop drops an element.  Every `fpc.Size(...)` the writer builds is the body of an annotation `:precision integer`."""
+    tree = ctx.repo.module(BACK).tree
+    parents = {c_: p_ for p_ in ast.walk(tree) for c_ in ast.iter_child_nodes(p_)}
+    owner: dict[ast.AST, str] = {}
+    for q, fn in ctx.repo.functions(BACK):
+        for x in ast.walk(fn):
+            owner[x] = q
+
+    def integer_props(e: ast.AST, scope: ast.AST | None) -> bool:
+        if isinstance(e, ast.Dict):
+            d = {norm(k): norm(v) for k, v in zip(e.keys, e.values) if k is not None}
+            return d.get("'precision'") == "'integer'"
+        if isinstance(e, ast.Name) and scope is not None:
+            defs = [s.value for s in ast.walk(scope) if isinstance(s, ast.Assign) and any(isinstance(t, ast.Name) and t.id == e.id for t in s.targets)]
+            return bool(defs) and all(integer_props(v, None) for v in defs)
+        return False
+    sizes = [k for k in ast.walk(tree) if isinstance(k, ast.Call) and call_name(k) == 'fpc.Size']
+    if not sizes:
+        raise ShapeError('the writer no longer builds fpc.Size')
+    for k in sizes:
+        p = parents.get(k)
+        q = owner.get(k, '<module>')
+        scope = next((f for qq, f in ctx.repo.functions(BACK) if qq == q), None)
+        ok = isinstance(p, ast.Call) and call_name(p) == 'fpc.Ctx' and len(p.args) == 2 and p.args[1] is k and integer_props(p.args[0], scope)
+        ctx.check(ok, BACK, k, q, f'`{norm(k)[:60]}` is the body of a `:precision integer` annotation',
+                  'emitted bare: a reader rounds the length under the enclosing block -- under bfloat16 a 257-element tensor has length 256 and `for x in xs` drops the last element')
+
+
 def w7_bundle_substitution(ctx: Ctx):
     """While bundling carries the loop's variables in one tuple `t`: the *condition*, evaluated between iterations, reads
     `x_i` as `t[i]`; the *body* starts by unpacking `t` into names of its own and ends by packing them again, so inside it a
@@ -960,6 +991,7 @@ def r3_loop_condition(ctx: Ctx):
 
 
 RULES = [
+    Rule('C12.W8', 'writer: a tensor length is emitted under an integer annotation, wherever it stands', w8_sizes_are_integers, 1, 'F'),
     Rule('C12.W7', 'while bundling: the tuple substitution reaches the condition only; the body reads its own variables', w7_bundle_substitution, 2, 'F'),
     Rule('C12.W6', 'writer: no variable reaches emission spelled like an FPCore constant', w6_reserved_names, 8, 'F,T'),
     Rule('C12.W5', 'bundling: the variables a branch or loop changes are packed and unpacked in one order', w5_bundled_state, 3, 'F'),
@@ -980,6 +1012,8 @@ RULES = [
 from ..selftest import Mutant  # noqa: E402
 
 MUTANTS = [
+    Mutant('tensor-length-emitted-bare', BACK, "    return fpc.Ctx({ 'precision': 'integer' }, fpc.Size(arr, dim))\n", "    return fpc.Size(arr, dim)\n", 'C12.W8',
+           'finding F138 before its repair: under bfloat16 a 257-element tensor has length 256'),
     Mutant('while-body-rewritten-with-the-tuple-substitution', 'fpy2/transform/while_bundling.py', "            body, _ = self._visit_block(stmt.body, ctx)\n            body = RenameTarget.apply_block(body, rename)", "            body, _ = self._visit_block(stmt.body, cond_ctx)\n            body = RenameTarget.apply_block(body, rename)", 'C12.W7',
            'seeded change C12f: i = i + 1; f = f * i reads the i of the start of the iteration, 5! = 0'),
     Mutant('variables-emitted-under-reserved-spellings', BACK, "    fd = IfBundling.apply(fd)\n    fd = _rename_reserved_names(fd)\n", "    fd = IfBundling.apply(fd)\n", 'C12.W6',
